@@ -1158,7 +1158,7 @@ func (r *Reader) extractHeaderFooterText(filename string) string {
 // extractParagraphText extracts text from a paragraph XML element.
 func (r *Reader) extractParagraphText(p paragraphXML) string {
 	var textParts []string
-	for _, run := range p.Runs {
+	for _, run := range p.runs() {
 		runText := r.extractRunText(run)
 		if runText != "" {
 			textParts = append(textParts, runText)
@@ -1324,7 +1324,7 @@ func (r *Reader) processParagraph(p paragraphXML) parsedParagraph {
 
 	// Extract text from runs with resolved formatting
 	var textParts []string
-	for _, run := range p.Runs {
+	for _, run := range p.runs() {
 		runText := r.extractRunText(run)
 		if runText != "" {
 			textParts = append(textParts, runText)
